@@ -3,8 +3,11 @@
 The grids of pyunicorn keep their coordinates in single precision; "the
 coordinates" of the property are therefore the values *as stored*
 (`stored(x)` = the float32 nearest to x, widened back to a Python float).
-Everything here is plain `math` on Python floats / Fractions; nothing is
-shared with the library and numpy is not used.
+Everything the exhaustive families use is plain `math` on Python floats /
+Fractions; nothing is shared with the library.  Only the `np_*` functions at
+the end (same closed forms, vectorised in float64 for the `scale` family with
+hundreds of nodes) use numpy; they are held to the scalar versions by
+`selfcheck_np`.
 
 Accepted error of an angular distance (DESIGN.md section 7, C12): the library
 forms the cosine of the angle from single-precision sines and cosines and
@@ -194,4 +197,65 @@ def selfcheck():
     got = [round(x, 4) for x in awc(A, w, "in")]
     assert got == [0.4854, 0.499, 0.3342, 0.3446, 0.5146, 0.1726], got
     assert PI32 > math.pi and PI32 - math.pi < 1e-7
+    return True
+
+
+# ---------------------------------------------------------------------------
+# vectorised float64 versions of the same closed forms for the `scale`
+# family (hundreds of nodes).  numpy is used only here; `selfcheck_np`
+# holds these to the scalar functions above.
+
+
+def np_stored(x):
+    import numpy as np
+    return np.asarray(x, dtype=np.float32).astype(np.float64)
+
+
+def np_unit(lat_deg, lon_deg):
+    import numpy as np
+    la, lo = np.radians(lat_deg), np.radians(lon_deg)
+    c = np.cos(la)
+    return np.stack([c * np.cos(lo), c * np.sin(lo), np.sin(la)], axis=-1)
+
+
+def np_angles(lat1, lon1, lat2=None, lon2=None):
+    """Matrix of atan2(|a x b|, a.b) between two point sets (degrees, taken
+    as given; pass np_stored(...) for grid nodes)."""
+    import numpy as np
+    A = np_unit(np.asarray(lat1, float), np.asarray(lon1, float))
+    B = A if lat2 is None else np_unit(np.asarray(lat2, float),
+                                       np.asarray(lon2, float))
+    dot = A @ B.T
+    cr = np.cross(A[:, None, :], B[None, :, :])
+    return np.arctan2(np.sqrt((cr * cr).sum(axis=-1)), dot)
+
+
+def np_ang_tol(theta):
+    import numpy as np
+    s = np.maximum(np.sin(theta), math.sqrt(EPS32))
+    return np.minimum(ANGLE_CAP, 8 * EPS32 / s + 4 * EPS32 * math.pi)
+
+
+def np_euclid(X):
+    """X: (N, dim) stored coordinates -> (N, N) distances."""
+    import numpy as np
+    d = X[:, None, :] - X[None, :, :]
+    return np.sqrt((d * d).sum(axis=-1))
+
+
+def selfcheck_np():
+    pts = [(90, 0), (-90, 5), (0, 180), (0, -180), (30.0001, 60), (30, 60),
+           (-30, -120), (52.5, 13.4), (-87, -180), (87, 0)]
+    lat = np_stored([p[0] for p in pts])
+    lon = np_stored([p[1] for p in pts])
+    M = np_angles(lat, lon)
+    T = np_ang_tol(M)
+    for i, p in enumerate(pts):
+        for j, q in enumerate(pts):
+            ref = angle_stored(p, q)
+            assert abs(M[i, j] - ref) < 1e-12, (p, q, M[i, j], ref)
+            assert abs(T[i, j] - ang_tol(ref)) < 1e-12
+    X = np_stored([[0, 0, 0], [3, 4, 0], [-1, 0.5, 3]])
+    E = np_euclid(X)
+    assert E[0, 1] == 5.0 and abs(E[0, 2] - euclid(X[0], X[2])) < 1e-15
     return True
